@@ -197,8 +197,19 @@ func givenCoq(gs []given) string {
 // renderCorpus: small fixed programs the renderer checks (C08 C18 C19) always run before the
 // generated ones - minimised inputs of earlier failures and of seeded changes that the random
 // programs of one seed do not always contain
+// poolIdx: the index of the first pool value with that description
+func poolIdx(str string) int {
+	for i, v := range valuePool() {
+		if v.Str == str {
+			return i
+		}
+	}
+	panic("no pool value " + str)
+}
+
 func renderCorpus() [][]PStmt {
 	skip := POpt{T: "skip", N: 1000}
+	nilURL := poolIdx("(*url.URL)(nil)")
 	field := POpt{T: "field", Key: 0, Val: 22}
 	return [][]PStmt{
 		// a stack object with zero frames (StackSkip beyond the call depth): "no stack" for every view
@@ -214,6 +225,10 @@ func renderCorpus() [][]PStmt {
 			{T: "define", Kind: "k2", Opts: []POpt{{T: "notrace"}}}, {T: "wrap", F: 2, C: ip(0)}, {T: "join", F: 2, Cs: []*int{ip(0), nil, ip(1)}}},
 		{{T: "define", Kind: "k1", Opts: []POpt{{T: "json", ID: 1}, {T: "notrace"}}}, {T: "ctx", Opts: []POpt{field}}, {T: "with", D: 0, Ctx: ip(0)},
 			{T: "new", F: 1, Msg: "via context"}, {T: "define", Kind: "k2", Opts: []POpt{{T: "notrace"}}}, {T: "wrap", F: 2, C: ip(0)}},
+		// a field that marshals as JSON null (a nil pointer in an any-typed key): restored as an UNKNOWN field
+		// named "any", which sorts before the typed fields "b", "n", "s" of the same restored error
+		{{T: "define", Kind: "k1", Opts: []POpt{{T: "field", Key: 0, Val: 22}, {T: "field", Key: 19, Val: nilURL}, {T: "field", Key: 15, Val: 15}, {T: "field", Key: 2, Val: 3}, {T: "notrace"}}},
+			{T: "new", F: 0, Msg: "null field"}, {T: "define", Kind: "k2", Opts: []POpt{{T: "notrace"}}}, {T: "wrap", F: 1, C: ip(0)}},
 		// a foreign cause with its own marshalers is still rendered by the library
 		{{T: "define", Kind: "k1", Opts: []POpt{{T: "notrace"}}}, {T: "leaf", Msg: "jm leaf", Ty: "jm"}, {T: "wrap", F: 0, C: ip(0)},
 			{T: "single", Msg: "outer", C: ip(0)}, {T: "join", F: 0, Cs: []*int{ip(2), ip(0)}}},
